@@ -185,11 +185,16 @@ template <typename T> inline HistCfg<T> make_hist_cfg(Rng& rng)
             for (int tries = 0; tries < 40000; ++tries)
             {
                 std::size_t b = rng.range(3, 9);
-                T lo = T(rng.range(0, 40)) / T(10) - T(2), hi = lo + T(rng.range(1, 30)) / T(10);
+                T lo, hi;
+                if (tries % 2) { lo = T(rng.range(0, 40)) / T(10); hi = T(rng.range(1, 60)) / T(10); }
+                else { lo = T((long double)rng.below(100000) / 100000.0L); hi = lo + T((long double)rng.range(1, 100000) / 10000.0L); }
+                if (!(hi > lo)) continue;
                 volatile T size = (hi - lo) / T(b);
                 volatile T top = lo + T(b) * size;
                 volatile T size2 = (top - lo) / T(b);
-                if (size2 != size) { c.dbins = b; c.dmin = lo; c.dmax = hi; count("binnings_whose_bin_size_is_not_recomputable_from_the_range"); break; }
+                volatile T top2 = lo + T(b) * size2;
+                // prefer ranges where even the recomputed upper end moves (a second save would then write a different text)
+                if (size2 != size && (top2 != top || tries > 30000)) { c.dbins = b; c.dmin = lo; c.dmax = hi; count("binnings_whose_bin_size_is_not_recomputable_from_the_range"); break; }
             }
         }
     }
